@@ -506,12 +506,20 @@ fn dec_sx(d: Option<Decision>) -> &'static str {
     }
 }
 
+/// `None`: constructing the determining policies panicked
+fn may_must(pr: &PartialResponse) -> Option<(Vec<String>, Vec<String>)> {
+    catch_unwind(AssertUnwindSafe(|| (may_ids(pr), must_ids(pr)))).ok()
+}
+
 fn presp_sx(pr: &PartialResponse) -> String {
     let mut o = format!("(presp {} (cls", dec_sx(pr.decision()));
     for (id, c) in classes(pr) {
         write!(o, " ({} {})", sx::qs(&id), c).unwrap();
     }
-    write!(o, ") (may {}) (must {}))", sx::ids(may_ids(pr).into_iter()), sx::ids(must_ids(pr).into_iter())).unwrap();
+    match may_must(pr) {
+        Some((may, must)) => write!(o, ") (may {}) (must {}))", sx::ids(may.into_iter()), sx::ids(must.into_iter())).unwrap(),
+        None => o.push_str(") (construct-policy-panic))"),
+    }
     o
 }
 
@@ -595,7 +603,18 @@ pub fn one_case(r: &mut Rng, g: &mut ExprGen, out: &mut Out, k_subst: usize) {
     if c.ent_unknowns { out.count("entity_attr_unknowns"); }
     if policy_unknown_call { out.count("policy_unknown_call"); }
     // the subset chain on the partial response itself
-    let (may0, must0) = (may_ids(&pr), must_ids(&pr));
+    let Some((may0, must0)) = may_must(&pr) else {
+        // GENUINE DEFECT (recorded in known_findings.jsonl): a residual kept an unlinked template slot
+        // (best-effort fall-back to the original right operand of `&&`), and constructing a `Policy` from it panics
+        out.count("construct_policy_panic");
+        let msg = catch_unwind(AssertUnwindSafe(|| may_ids(&pr))).err().map(panic_msg).unwrap_or_default();
+        out.propfail("panic in PartialResponse::may_be_determining", &desc, &msg);
+        if let Ok(sa) = c.store(None, true, false) {
+            let (sigma, sigma_model) = c.gen_sigma(r, &[]);
+            reauth_line(&c, &pr, &sigma, &subst_sx(&sigma_model), &sa, &preq_s, &store0_s, &psx, &desc, 0, "a", out, &auth);
+        }
+        return;
+    };
     if !is_subset(&must0, &may0) {
         out.propfail("must_be_determining not a subset of may_be_determining", &desc, &obs);
     }
@@ -671,8 +690,29 @@ pub fn one_case(r: &mut Rng, g: &mut ExprGen, out: &mut Out, k_subst: usize) {
             if let Ok(sa) = &store_a { variants.push(("a", sa)); }
             if c.ent_unknowns { variants.push(("b", &fstore)); }
             for (tag, st) in variants {
-                if let Some(pr2) = reauth_line(&c, &pr, &sigma, &ssx, st, &preq_s, &store0_s, &psx, &desc, si, tag, out, &auth) {
+                if let Some(mut pr2) = reauth_line(&c, &pr, &sigma, &ssx, st, &preq_s, &store0_s, &psx, &desc, si, tag, out, &auth) {
                     out.count("reauthorizations");
+                    let left1 = classes(&pr2).values().filter(|c| **c == "residual").count();
+                    if left1 > 0 && tag == "a" {
+                        // "undiscovered unknowns" (doc of Expr::substitute): an unknown nested inside an entity attribute
+                        // value is only *discovered* by the round that first dereferences the entity (get_attr maps a
+                        // direct `Unknown` attribute through the mapper, but returns any other residual unchanged);
+                        // a second round with the same substitution (minus the request variables, now concrete) resolves it
+                        out.count("undiscovered_nested_unknown_second_round");
+                        let sigma2: Sigma = sigma.iter().filter(|(k, _)| !["principal", "resource", "context"].contains(&k.as_str())).map(|(k, v)| (k.clone(), v.clone())).collect();
+                        let model2: Vec<(String, Value)> = sigma_model.iter().filter(|(k, _)| !["principal", "resource", "context"].contains(&k.as_str())).cloned().collect();
+                        let ssx2 = subst_sx(&model2);
+                        match catch_unwind(AssertUnwindSafe(|| pr2.reauthorize(&sigma2, &auth, st))) {
+                            Ok(Ok(pr3)) => {
+                                if let Some(st_s) = pentities_sx(st) {
+                                    out.line(format!("(reauth2 {preq_s} {store0_s} {st_s} {psx} {ssx} {ssx2})"), format!("(reauth {})", presp_sx(&pr3)), format!("reauth2#{si}{tag} {desc} ## {ssx}"));
+                                }
+                                pr2 = pr3;
+                            }
+                            Ok(Err(e)) => out.propfail("second reauthorize round failed", &sdesc, &e.to_string()),
+                            Err(p) => out.propfail("panic in reauthorize (second round)", &sdesc, &panic_msg(p)),
+                        }
+                    }
                     let d2 = pr2.decision();
                     let cls2 = classes(&pr2);
                     let left = cls2.values().filter(|c| **c == "residual").count();
@@ -708,7 +748,11 @@ fn reauth_line(
     let st_s = pentities_sx(st)?;
     let res = match catch_unwind(AssertUnwindSafe(|| pr.reauthorize(sigma, auth, st))) {
         Ok(x) => x,
-        Err(p) => { out.propfail("panic in reauthorize", desc, &panic_msg(p)); return None; }
+        Err(p) => {
+            out.propfail("panic in reauthorize", desc, &panic_msg(p));
+            out.line(format!("(reauth {preq_s} {store0_s} {st_s} {psx} {ssx})"), "(reauth-panic)".into(), format!("reauth#{si}{tag} {desc} ## {ssx}"));
+            return None;
+        }
     };
     let (obs, ret) = match res {
         Ok(pr2) => (format!("(reauth {})", presp_sx(&pr2)), Some(pr2)),
@@ -731,6 +775,9 @@ pub fn run(args: &Args, out: &mut Out) {
     let k = if args.thorough { 8 } else { 3 };
     for _ in 0..args.n {
         let mut cr = rng.fork();
-        one_case(&mut cr, &mut g, out, k);
+        let seed_state = cr.0;
+        if let Err(p) = catch_unwind(AssertUnwindSafe(|| one_case(&mut cr, &mut g, out, k))) {
+            out.propfail("harness-internal panic (case generator)", &format!("case rng state {seed_state}"), &panic_msg(p));
+        }
     }
 }
